@@ -721,6 +721,13 @@ namespace bloch::compiler {
         if (annotationToken.type == TokenType::Shots) {
             (void)expect(TokenType::LParen, "Expected opening bracket '('");
             numberOfShots = expect(TokenType::IntegerLiteral, "Number of shots must be an integer");
+            try {
+                (void)std::stoi(numberOfShots.value);
+            } catch (const std::exception&) {
+                // Later stages convert this text with std::stoi; refuse what they cannot represent.
+                throw BlochError(ErrorCategory::Parse, numberOfShots.line, numberOfShots.column,
+                                 "Number of shots is out of range");
+            }
             (void)expect(TokenType::RParen, "Expected closing bracket ')'");
         }
         std::unique_ptr<AnnotationNode> annotation = std::make_unique<AnnotationNode>();
